@@ -11,6 +11,7 @@ import (
 	"math/rand"
 	"sort"
 	"sync"
+	"testing/iotest"
 	"time"
 
 	netty "github.com/go-netty/go-netty"
@@ -29,10 +30,12 @@ const (
 	// EReadFrom is Channel.ReadFrom (pooled 1024-byte chunks handed over without a copy); not
 	// part of the default mix because payloads above 1024 bytes become several low-level writes.
 	EReadFrom = NEntries
+	// EReadFromEOF is ReadFrom over a reader that returns its last data together with io.EOF.
+	EReadFromEOF = NEntries + 1
 )
 
 // EntryName names the entry points.
-var EntryName = []string{"Write1", "Writev", "CtxWrite1", "CtxWritev", "Writer().Write", "ReadFrom"}
+var EntryName = []string{"Write1", "Writev", "CtxWrite1", "CtxWritev", "Writer().Write", "ReadFrom", "ReadFrom(data+EOF)"}
 
 // WriteRec is one write call as seen at the client boundary.
 type WriteRec struct {
@@ -124,6 +127,8 @@ func DoWrite(ch netty.Channel, ctx context.Context, entry int, buf []byte, rng *
 		return int64(n), err
 	case EReadFrom:
 		return ch.ReadFrom(bytes.NewReader(buf))
+	case EReadFromEOF:
+		return ch.ReadFrom(iotest.DataErrReader(bytes.NewReader(buf)))
 	case EWritev, ECtxWritev:
 		parts := split(buf, rng)
 		if entry == EWritev {
